@@ -764,7 +764,14 @@ func collectFacts(dir string) (*factSet, error) {
 		"WithFilter", "WithFPS", "detectReportFocus", "Program.handleSignals", "Program.handleCommands", "Program.handleResize",
 		"Program.initCancelReader", "standardRenderer.listen", "standardRenderer.start", "standardRenderer.handleMessages",
 		"Program.initInput", "Program.restoreInput", "Program.suspend", "standardRenderer.halt",
-		"Exec", "ExecProcess", "wrapExecCommand", "osExecCommand.SetStdin", "osExecCommand.SetStdout", "osExecCommand.SetStderr")
+		"Exec", "ExecProcess", "wrapExecCommand", "osExecCommand.SetStdin", "osExecCommand.SetStdout", "osExecCommand.SetStderr",
+		// the functions the Lean models mirror statement by statement (round 13: a threshold added to
+		// one of them - `if n > 32`, a timeout, a size limit - is a regime the model does not have; the
+		// behavioural ties see it only if a generator happens to cross the number, the body fact always)
+		"standardRenderer.render", "standardRenderer.flush", "standardRenderer.stop", "standardRenderer.kill",
+		"standardRenderer.clearScreen", "standardRenderer.enterAltScreen", "standardRenderer.exitAltScreen",
+		"readAnsiInputs", "detectOneMsg", "detectSequence", "detectBracketedPaste", "isIncompleteEvent",
+		"parseSGRMouseEvent", "parseX10MouseEvent", "parseMouseButton")
 	fs.signature("Program.Run")
 	// the method set of the wrapper ExecProcess hands to exec: Run (and everything else) must be
 	// os/exec's own, promoted from the embedded *exec.Cmd; only the three Set… methods are the library's
